@@ -1,12 +1,14 @@
 //! C20 harness: the real handle_peer_message / filter_peer, observed at the peer of a scripted
 //! connection.  Result lines start with "R " (the crate prints a freshly created id on stdout).
 //!
-//!   p <iface|-> <member|-> <typ c|s|r|e> <serial> <sender|-> <reply serial of the incoming message|->
+//!   p <iface|-> <member|-> <typ c|s|r|e|i> <serial> <sender|-> <reply serial of the incoming message|->
 //!        handle_peer_message on a message with that header, then a marker signal; everything
 //!        the peer receives before the marker is what the call wrote
 //!   u <12 bytes hex> <12 bytes hex>
 //!        (private mount namespace only) first draw into the /dev/urandom fixture, stored id
 //!        removed, GetMachineId; second draw into the fixture, GetMachineId again
+//!   g    (private mount namespace only) GetMachineId twice on whatever id file an EARLIER process left in
+//!        the directory mounted over /tmp; nothing is removed or planted by the harness
 //!   f    fallback without a namespace: a real draw; any existing /tmp/dbus_machine_uuid is saved
 //!        and restored
 //!
@@ -158,6 +160,7 @@ fn make_msg(iface: &str, member: &str, typ: &str, serial: u32, sender: &str, rs:
             "c" => MessageType::Call,
             "s" => MessageType::Signal,
             "r" => MessageType::Reply,
+            "i" => MessageType::Invalid,
             _ => MessageType::Error,
         },
         dynheader: DynamicHeader {
@@ -295,6 +298,22 @@ fn main() {
                 println!(
                     "R handled1={} r1={} file1={} handled2={} r2={} file2={} t0={} t1={}",
                     h1, r1, file1, h2, r2, file2, t0, t1
+                );
+            }
+            ["g"] => {
+                if !in_ns {
+                    println!("R refused");
+                    continue;
+                }
+                let pre = read_id_file();
+                let draw = hex(&urandom12());
+                let (h1, r1) = sess.observe(&get_id_msg());
+                let file1 = read_id_file();
+                let (h2, r2) = sess.observe(&get_id_msg());
+                let file2 = read_id_file();
+                println!(
+                    "R pre={} draw={} handled1={} r1={} file1={} handled2={} r2={} file2={}",
+                    pre, draw, h1, r1, file1, h2, r2, file2
                 );
             }
             ["f"] => {
